@@ -14,7 +14,8 @@ import pipeline
 import scen
 
 PROP = "C15"
-MODES = ["none", "none", "none", "wrong_signer", "unauth_key", "key_of_other_step", "key_of_other_step", "inner_expired", "inner_link_missing", "inner_link_unauth",
+MODES = ["none", "none", "none", "wrong_signer", "unauth_key", "key_of_other_step", "key_of_other_step",
+         "inner_inspection_fails", "inner_inspection_rule_fails", "inner_inspection_passes", "inner_expired", "inner_link_missing", "inner_link_unauth",
          "inner_link_corrupt", "inner_rule_fail", "links_in_parent_dir", "links_in_other_key_dir",
          "links_in_other_step_dir", "parent_requires_summary_product", "parent_disallows_summary_product",
          "inner_unsigned", "inner_content_edited"]
@@ -176,6 +177,17 @@ def shard(binpath, seed, sh, n):
                 child["signers"] = [k2]
                 if W.kid(k2) not in parent["layout"]["keys"]:
                     parent["layout"]["keys"][W.kid(k2)] = W.pub(k2)
+        elif mode in ("inner_inspection_fails", "inner_inspection_rule_fails", "inner_inspection_passes"):
+            # the delegated layout carries an inspection of its own: complete verification includes running it
+            if mode == "inner_inspection_fails":
+                insp = scen.mk_inspection("inner-check", ["sh", "-c", "exit 3"], [["ALLOW", "*"]], [["ALLOW", "*"]])
+            elif mode == "inner_inspection_rule_fails":
+                insp = scen.mk_inspection("inner-check", ["sh", "-c", "echo x > made-by-inspection"], [["ALLOW", "*"]],
+                                          [["DISALLOW", "made-by-inspection"], ["ALLOW", "*"]])
+            else:
+                insp = scen.mk_inspection("inner-check", ["sh", "-c", "true"], [["ALLOW", "*"]], [["ALLOW", "*"]])
+                expect = "accept"
+            child["layout"]["inspect"] = [insp]
         elif mode == "inner_expired":
             child["layout"]["expires"] = "2020-01-01T00:00:00Z"
         elif mode == "inner_link_missing":
@@ -331,7 +343,7 @@ def main(ctx):
              "the contributed last product; positive controls compare the returned summary link exactly; every "
              "scenario is non-trivial; distinct by (layout, directory)",
         assumptions=["ground truth by construction; summary computed from the descriptor"],
-        required=["positive_control_accepted", "mode:key_of_other_step", "positive_at_tree_depth:1", "positive_at_tree_depth:2",
+        required=["positive_control_accepted", "mode:key_of_other_step", "mode:inner_inspection_fails", "mode:inner_inspection_passes", "positive_at_tree_depth:1", "positive_at_tree_depth:2",
                   "positive_at_tree_depth:3", "mode:wrong_signer", "mode:unauth_key", "mode:inner_expired",
                   "mode:inner_link_missing", "mode:links_in_parent_dir", "mode:links_in_other_key_dir",
                   "mode:parent_disallows_summary_product", "mode:parent_requires_summary_product", "mode:inner_rule_fail",
